@@ -5,11 +5,13 @@ import (
 	"encoding/json"
 	"fmt"
 	"math/rand"
+	"net"
 	"os"
 	"strings"
 	"sync"
 	"time"
 
+	"github.com/bluenviron/gortsplib/v5"
 	"github.com/pion/rtp"
 
 	"verif/lib/rig"
@@ -48,6 +50,16 @@ const (
 	childIdleTimeout = 2 * time.Second
 )
 
+type smallBufListener struct{ net.Listener }
+
+func (l smallBufListener) Accept() (net.Conn, error) {
+	c, err := l.Listener.Accept()
+	if tc, ok := c.(*net.TCPConn); ok && err == nil {
+		_ = tc.SetWriteBuffer(8192)
+	}
+	return c, err
+}
+
 func runChild(cfgJSON string) {
 	var cfg childCfg
 	if err := json.Unmarshal([]byte(cfgJSON), &cfg); err != nil {
@@ -59,6 +71,17 @@ func runChild(cfgJSON string) {
 		UDP: cfg.UDP, Multicast: cfg.Multicast, TLS: cfg.TLS, HandlerSet: cfg.HandlerSet, NoLog: true, Desc: desc,
 		ReadTimeout: childReadTimeout, WriteTimeout: childReadTimeout, IdleTimeout: childIdleTimeout,
 		CheckStreamPeriod: 200 * time.Millisecond, WriteQueueSize: 64,
+		// small kernel send buffers on accepted connections: a peer that stops reading makes the
+		// server's writer block after some tens of kilobytes instead of megabytes
+		Mutate: func(s *gortsplib.Server) {
+			s.Listen = func(network, address string) (net.Listener, error) {
+				l, err := net.Listen(network, address)
+				if err != nil {
+					return nil, err
+				}
+				return smallBufListener{l}, nil
+			}
+		},
 	})
 	if err != nil {
 		fmt.Println("CHILD-ERROR start:", err)
